@@ -277,7 +277,11 @@ class Run:
               'coverage': self.cov, 'assumptions': self.assumptions, 'wall_s': round(wall, 2),
               'violations': len(self.violations)}
         ev['coverage']['known_findings_reported'] = self.known_lines
-        with open(os.path.join(VERIF, 'evidence', f'{self.prop}.json'), 'w') as f:
+        # evidence/<id>.json describes runs against /repo itself; a run against another tree (VERIF_REPO, used to
+        # test the checks on mutated scratch copies) must not overwrite it
+        ev_dir = os.path.join(VERIF, 'evidence') if os.path.realpath(REPO) == '/repo' else os.path.join(WORK, 'evidence-other-tree')
+        os.makedirs(ev_dir, exist_ok=True)
+        with open(os.path.join(ev_dir, f'{self.prop}.json'), 'w') as f:
             json.dump(ev, f, indent=1, default=str)
         for l in self.known_lines:
             print(l)
